@@ -96,7 +96,7 @@ PROPS = {
         "lean_support": ["WP.Model.Access"],
         "families": [("posauth", 20000, 200000), ("xadm", 8000, 400000), ("xini", 8000, 400000), ("xinitaf", 6000, 300000), ("xbun", 6000, 300000), ("hist", 12000, 300000)],
         "history": True,
-        "rule": "xini / xinitaf / xbun: every initialiser (config: admin key; fee tiers, adaptive fee tiers, config extension: fee authority; token badges: the token-badge authority of this config's extension; rewards: reward authority; adaptive-fee pools: the tier's initialize-pool authority) and every position-bundle instruction through the REAL entrypoint with the required authority signing / a stranger signing in its slot / the key passed without signing (bundles also: a one-token delegate): only the first may succeed (oracle), results compared with the Lean models by code name; xadm: 19 settings instructions (fee / protocol fee rates of pools, fee tiers and adaptive fee tiers, every set-authority instruction, adaptive-fee constants, config feature flag, config-extension and token-badge settings) executed through the program's REAL entrypoint on a world of two configs with different authorities: everything right / authority not signing / a stranger signing / the other config's authority with this config's target account or another role's authority / value out of bounds / target account of the other config; the op line carries the environment read from the real accounts, the Lean model answers with `accepts` on the REGENERATED account table (acceptsB_iff) and the setter's bound, so the translated tables and the semantics given to Signer / address / has_one / constraint are compared with Anchor's generated validation; oracle: only the all-right variant may succeed and then only the target account changes; hist (ops xliq, xsub): the REAL liquidity instructions through the program's entrypoint with the position owner signing / a stranger signing / the owner not signing, and every account slot of swap_v2 and increase_liquidity_v2 (incl. the signer) replaced by a look-alike: unauthorized variants must be refused and change nothing; posauth: every combination of (owner, delegate present/absent/which, delegated amount 0/1/2/5, token amount, authority key, signer flag) "
+        "rule": "xini / xinitaf / xbun: every initialiser (config: admin key; fee tiers, adaptive fee tiers, config extension: fee authority; token badges: the token-badge authority of this config's extension; rewards: reward authority; adaptive-fee pools: the tier's initialize-pool authority) and every position-bundle instruction through the REAL entrypoint with the required authority signing / a stranger signing in its slot / the key passed without signing (bundles also: a one-token delegate): only the first may succeed (oracle), results compared with the Lean models by code name; xadm: 19 settings instructions (fee / protocol fee rates of pools, fee tiers and adaptive fee tiers, every set-authority instruction, adaptive-fee constants, config feature flag, config-extension and token-badge settings) executed through the program's REAL entrypoint on a world of two configs with different authorities: everything right / authority not signing / a stranger signing / the other config's authority with this config's target account or another role's authority / value out of bounds / target account of the other config; the op line carries the environment read from the real accounts, the Lean model answers with `accepts` on the REGENERATED account table (acceptsB_iff) and the setter's bound, so the translated tables and the semantics given to Signer / address / has_one / constraint are compared with Anchor's generated validation; oracle: only the all-right variant may succeed, then only the target account changes AND the value stored is the value asked for (rates of pools / tiers / config; the adaptive-fee constants that result from a PARTIAL set_adaptive_fee_constants - each argument optional -, with the variables reset; an unchanged set refused); hist (ops xliq, xsub): the REAL liquidity instructions through the program's entrypoint with the position owner signing / a stranger signing / the owner not signing, and every account slot of swap_v2 and increase_liquidity_v2 (incl. the signer) replaced by a look-alike: unauthorized variants must be refused and change nothing; posauth: every combination of (owner, delegate present/absent/which, delegated amount 0/1/2/5, token amount, authority key, signer flag) "
                 "on real spl-token account bytes through verify_position_authority, verify_position_authority_interface and pino_verify_position_authority "
                 "(the space has 1920 points; sampled with replacement far beyond that); non-trivial = an accepted combination; "
                 "the instruction tables (63 accounts structs, 6 Pinocchio prologues, handler guards, routing table, #[program] list) are regenerated and checked against the requirement tables by `decide`",
@@ -121,7 +121,7 @@ PROPS = {
         "lean_support": ["WP.Model.Access"],
         "families": [("ldta", 0, 0), ("posauth", 5000, 50000), ("xadm", 8000, 400000), ("hist", 12000, 300000)],
         "history": True,
-        "rule": "xadm: 19 settings instructions (fee / protocol fee rates of pools, fee tiers and adaptive fee tiers, every set-authority instruction, adaptive-fee constants, config feature flag, config-extension and token-badge settings) executed through the program's REAL entrypoint on a world of two configs with different authorities: everything right / authority not signing / a stranger signing / the other config's authority with this config's target account or another role's authority / value out of bounds / target account of the other config; the op line carries the environment read from the real accounts, the Lean model answers with `accepts` on the REGENERATED account table (acceptsB_iff) and the setter's bound, so the translated tables and the semantics given to Signer / address / has_one / constraint are compared with Anchor's generated validation; oracle: only the all-right variant may succeed and then only the target account changes; hist (op xsub): every account slot of the real swap_v2 and increase_liquidity_v2 instructions replaced by a look-alike of the same owner and type (vault / tick array / oracle of another pool over the same mints, another mint, another position and its token account, the other token program, a stranger as signer): the instruction must be refused and change nothing; ldta: all 64 combinations of (owner ok, writable, discriminator fixed/dynamic/other/short, whirlpool field ok, mutable load) through the Anchor and the "
+        "rule": "xadm: 19 settings instructions (fee / protocol fee rates of pools, fee tiers and adaptive fee tiers, every set-authority instruction, adaptive-fee constants, config feature flag, config-extension and token-badge settings) executed through the program's REAL entrypoint on a world of two configs with different authorities: everything right / authority not signing / a stranger signing / the other config's authority with this config's target account or another role's authority / value out of bounds / target account of the other config; the op line carries the environment read from the real accounts, the Lean model answers with `accepts` on the REGENERATED account table (acceptsB_iff) and the setter's bound, so the translated tables and the semantics given to Signer / address / has_one / constraint are compared with Anchor's generated validation; oracle: only the all-right variant may succeed, then only the target account changes AND the value stored is the value asked for (rates of pools / tiers / config; the adaptive-fee constants that result from a PARTIAL set_adaptive_fee_constants - each argument optional -, with the variables reset; an unchanged set refused); hist (op xsub): every account slot of the real swap_v2 and increase_liquidity_v2 instructions replaced by a look-alike of the same owner and type (vault / tick array / oracle of another pool over the same mints, another mint, another position and its token account, the other token program, a stranger as signer): the instruction must be refused and change nothing; ldta: all 64 combinations of (owner ok, writable, discriminator fixed/dynamic/other/short, whirlpool field ok, mutable load) through the Anchor and the "
                 "Pinocchio tick-array loaders (exhaustive); the slot table of the 15 fund-moving accounts structs and 6 Pinocchio prologues is regenerated and checked by `decide`",
         "trusted": ["as C04; the sparse-swap builder's account checks (PDA, ownership) are part of C10's family; token-program-side checks (owner accounts) are Solana's"],
     },
@@ -207,7 +207,7 @@ PROPS = {
         "lean_modules": ["WP.Props.C19", "WP.Props.Setup"],
         "lean_support": [],
         "families": [("mint", 40000, 2000000), ("badge", 0, 0), ("setfee", 10000, 200000), ("afc", 30000, 1000000), ("initpool", 20000, 500000), ("xadm", 8000, 400000), ("xinit", 6000, 300000), ("xinitaf", 6000, 300000), ("xini", 8000, 400000)],
-        "rule": "xini: the initialisers through the REAL entrypoint, each on a fresh world: initialize_config (funded by an admin key of this build or by a stranger; default protocol fee rate in / out of bounds), initialize_fee_tier and initialize_adaptive_fee_tier (the config's fee authority signing / a stranger / nobody; the tier address free or taken by a tier of the other kind; spacing 0; fee rate in / out of bounds; the adaptive index equal to the spacing; constants valid or with one rule broken), initialize_reward and initialize_reward_v2 (reward authority signing / stranger / nobody; index = / != the lowest uninitialized one on pools with 0..3 rewards; SPL and Token-2022 mints incl. the native one with the extension sets and badge-slot variants of xinit); initialize_config_extension, initialize_token_badge / delete_token_badge (the config's token-badge authority signing / a stranger / nobody; the TOKEN_BADGE feature on / off; the extension of this or of another config) and initialize_pool v1 (order, price, tier spacing, rates, Token-2022 mints); compared with the Lean models of WP/Model/Setup.lean by result code name and created values (theorems Setup.init_config_sound, init_fee_tier_sound, init_adaptive_fee_tier_sound, init_reward_sound, token_badge_sound, delete_badge_sound, config_extension_sound, init_pool_v1_sound) and independent oracles on what was created; xinitaf: initialize_pool_with_adaptive_fee through the REAL entrypoint (whirlpool AND Oracle created by Anchor's init, vaults by the real token programs) from an adaptive-fee tier that is permissioned or not, carries valid or invalid constants, with the tier's authority signing / a stranger signing / nobody signing, a trade-enable time absent / now / up to and beyond 72 h ahead / up to and beyond 30 s back, and everything xinit varies; compared with the Lean model `initializePoolWithAdaptiveFee` (result code by name, rates, price, tick, flag, recorded trade-enable time; theorem init_pool_af_sound) and independent oracles (constants validity re-implemented, Oracle contents, authority, time window); xinit: initialize_pool_v2 executed through the program's REAL entrypoint (whirlpool account created by Anchor's init, both vaults by the system program and the REAL SPL Token / Token-2022 processors): mint key order canonical / swapped / same mint twice, price inside / at / outside the bounds, fee tier of this or another spacing with fee rate and config protocol fee rate inside / outside their maxima, each mint SPL or Token-2022 (incl. the native mint) with or without freeze authority and one of 13 extension sets built by the real Token-2022 crate, and the badge slot holding nothing / the badge / another config's badge / another config's data at the badge address / the badge under a foreign owner / the badge with the non-transferable attribute; compared with the Lean model `initializePoolV2` (result code by name, fee rates, price, tick, non-transferable flag; theorem init_pool_v2_sound) and an independent walk of the published admission table; xadm: 19 settings instructions (fee / protocol fee rates of pools, fee tiers and adaptive fee tiers, every set-authority instruction, adaptive-fee constants, config feature flag, config-extension and token-badge settings) executed through the program's REAL entrypoint on a world of two configs with different authorities: everything right / authority not signing / a stranger signing / the other config's authority with this config's target account or another role's authority / value out of bounds / target account of the other config; the op line carries the environment read from the real accounts, the Lean model answers with `accepts` on the REGENERATED account table (acceptsB_iff) and the setter's bound, so the translated tables and the semantics given to Signer / address / has_one / constraint are compared with Anchor's generated validation; oracle: only the all-right variant may succeed and then only the target account changes; mint: is_supported_token_mint on synthesized SPL / Token-2022 mint accounts (real packed base state; TLV with 0-4 entries drawn from supported, badge-gated, "
+        "rule": "xini: the initialisers through the REAL entrypoint, each on a fresh world: initialize_config (funded by an admin key of this build or by a stranger; default protocol fee rate in / out of bounds), initialize_fee_tier and initialize_adaptive_fee_tier (the config's fee authority signing / a stranger / nobody; the tier address free or taken by a tier of the other kind; spacing 0; fee rate in / out of bounds; the adaptive index equal to the spacing; constants valid or with one rule broken), initialize_reward and initialize_reward_v2 (reward authority signing / stranger / nobody; index = / != the lowest uninitialized one on pools with 0..3 rewards; SPL and Token-2022 mints incl. the native one with the extension sets and badge-slot variants of xinit); initialize_config_extension, initialize_token_badge / delete_token_badge (the config's token-badge authority signing / a stranger / nobody; the TOKEN_BADGE feature on / off; the extension of this or of another config) and initialize_pool v1 (order, price, tier spacing, rates, Token-2022 mints); compared with the Lean models of WP/Model/Setup.lean by result code name and created values (theorems Setup.init_config_sound, init_fee_tier_sound, init_adaptive_fee_tier_sound, init_reward_sound, token_badge_sound, delete_badge_sound, config_extension_sound, init_pool_v1_sound) and independent oracles on what was created; xinitaf: initialize_pool_with_adaptive_fee through the REAL entrypoint (whirlpool AND Oracle created by Anchor's init, vaults by the real token programs) from an adaptive-fee tier that is permissioned or not, carries valid or invalid constants, with the tier's authority signing / a stranger signing / nobody signing, a trade-enable time absent / now / up to and beyond 72 h ahead / up to and beyond 30 s back, and everything xinit varies; compared with the Lean model `initializePoolWithAdaptiveFee` (result code by name, rates, price, tick, flag, recorded trade-enable time; theorem init_pool_af_sound) and independent oracles (constants validity re-implemented, Oracle contents, authority, time window); xinit: initialize_pool_v2 executed through the program's REAL entrypoint (whirlpool account created by Anchor's init, both vaults by the system program and the REAL SPL Token / Token-2022 processors): mint key order canonical / swapped / same mint twice, price inside / at / outside the bounds, fee tier of this or another spacing with fee rate and config protocol fee rate inside / outside their maxima, each mint SPL or Token-2022 (incl. the native mint) with or without freeze authority and one of 13 extension sets built by the real Token-2022 crate, and the badge slot holding nothing / the badge / another config's badge / another config's data at the badge address / the badge under a foreign owner / the badge with the non-transferable attribute; compared with the Lean model `initializePoolV2` (result code by name, fee rates, price, tick, non-transferable flag; theorem init_pool_v2_sound) and an independent walk of the published admission table; xadm: 19 settings instructions (fee / protocol fee rates of pools, fee tiers and adaptive fee tiers, every set-authority instruction, adaptive-fee constants, config feature flag, config-extension and token-badge settings) executed through the program's REAL entrypoint on a world of two configs with different authorities: everything right / authority not signing / a stranger signing / the other config's authority with this config's target account or another role's authority / value out of bounds / target account of the other config; the op line carries the environment read from the real accounts, the Lean model answers with `accepts` on the REGENERATED account table (acceptsB_iff) and the setter's bound, so the translated tables and the semantics given to Signer / address / has_one / constraint are compared with Anchor's generated validation; oracle: only the all-right variant may succeed, then only the target account changes AND the value stored is the value asked for (rates of pools / tiers / config; the adaptive-fee constants that result from a PARTIAL set_adaptive_fee_constants - each argument optional -, with the variables reset; an unchanged set refused); mint: is_supported_token_mint on synthesized SPL / Token-2022 mint accounts (real packed base state; TLV with 0-4 entries drawn from supported, badge-gated, "
                 "never-supported, unknown (>27) and zero type numbers, DefaultAccountState values 0/1/2 and wrong lengths, random truncation and trailing bytes; freeze authority, native mint, badge on/off); "
                 "badge: all 8 combinations; setfee: all five bounded setters on boundary and random values; afc: validate_constants on boundary-biased constants; initpool: Whirlpool::initialize; "
                 "non-trivial = an accepted input",
